@@ -49,7 +49,8 @@ static void ob_fill(H<T>& h, bool two_d)
     using std::isfinite;
     std::size_t const bx = h.get("bx", 2), by = two_d ? h.get("by", 2) : 1, N = h.get("N", 1);
     sym::E().conv_cap = std::max(bx, by) + 2;
-    T const xmin = h.input("x_min", -1e3, 1e3), xmax = h.input("x_max", -1e3, 1e3);
+    bool const crange = h.get("crange", 0) != 0;     // concrete, exactly representable range [0, 1)
+    T const xmin = crange ? T(0.0) : h.input("x_min", -1e3, 1e3), xmax = crange ? T(1.0) : h.input("x_max", -1e3, 1e3);
     h.assume(h.lt(xmin, xmax));
     T ymin = T(0.0), ymax = T(1.0);
     if (two_d)
@@ -95,6 +96,25 @@ static void ob_fill(H<T>& h, bool two_d)
     std::vector<T> const mx = hep::mid_points_x(dist), my = hep::mid_points_y(dist);
     h.check("C11|midpoints.sizes", h.truth(mx.size() == bx * by && my.size() == bx * by));
 
+    if (sym::bit_precise)
+    {
+        // bit-precise flavour (1-d, one call): the value lands in exactly one bin if the coordinate is inside [x_min, x_max) and in
+        // none otherwise; a coordinate within one rounding error of an inner edge may go to either adjacent bin, so only the count
+        // and the neighbourhood are asserted: bin k was hit => x_min + (k-1) size <= x < x_min + (k+2) size
+        std::size_t hits = 0;
+        auto where = h.truth(true);
+        for (std::size_t s = 0; s != bx; ++s)
+        {
+            auto const& bin = dist.results()[s];
+            hits += bin.finite_calls();
+            if (bin.finite_calls() != 0)
+                where = where && h.le(xmin + T(static_cast<double>(s) - 1.0) * sx, xs[0]) && h.lt(xs[0], xmin + T(static_cast<double>(s) + 2.0) * sx);
+        }
+        bool const inside = (xmin <= xs[0]) && (xs[0] < xmax);
+        h.check("C11|bitprecise.exactly_one_bin_inside_the_range_none_outside", h.truth(hits == (inside ? 1u : 0u)));
+        h.check("C11|bitprecise.hit_bin_is_the_bin_of_the_coordinate_or_its_neighbour", where);
+        return;
+    }
     for (std::size_t s = 0; s != bx * by; ++s)
     {
         std::size_t const ix = s % bx, iy = s / bx;     // x fastest, then y
